@@ -43,6 +43,7 @@ type CallSpec struct { // clauses attached to the k-th call of a callee
 	Witness []Clause // named values captured right after the call
 	Asserts []Clause // intermediate obligations right after the call (then assumed)
 	After   []Clause // lemma instances right after the call
+	Set     []Clause // ghost assignments executed right after the call (ghost code at the site)
 }
 
 type Param struct {
@@ -62,11 +63,13 @@ type FuncContract struct {
 	Epilogue []Clause // ghost assignments executed at every return (ghost code of the function)
 	Modifies []string
 	Safety   []string // property tags under which panic-freedom obligations are claimed
+	Owns     []string // property tags under which hand-over obligations ([]byte sent on a channel is not written afterwards) are claimed
 	Term     []string // property tags for termination (decreases) obligations
 	Pure     bool
 	Inline   bool
 	MayPanic bool
 	Trusted  bool // contract is assumed (body not verified); listed in evidence
+	Extern   bool // assumed contract of a function outside the module
 	Witness  []Clause
 	Lemmas   []Clause
 	Unfolds  []Clause // lemma instances assumed at function entry
@@ -183,6 +186,7 @@ type Contracts struct {
 	Unscoped    map[string][]string // pkgpath::key -> property tags: functions outside a discipline sweep
 	ChanLogs    []*ChanLog          // ghost logs of channel fields
 	Globals map[string]*GlobalDecl // pkgpath.Name
+	Externs map[string]*FuncContract // assumed contracts of functions outside the module, by full name
 	forallNames map[string]bool
 	Files  []string
 	Sha    map[string]string
@@ -190,7 +194,7 @@ type Contracts struct {
 
 func newContracts() *Contracts {
 	return &Contracts{Funcs: map[string]*FuncContract{}, Specs: map[string]*SpecFn{}, Lemmas: map[string]*Lemma{},
-		Ifaces: map[string]*IfaceContract{}, Ghosts: map[string]*GhostDecl{}, GhostFields: map[string]string{}, Unscoped: map[string][]string{}, Globals: map[string]*GlobalDecl{}, Sha: map[string]string{}}
+		Ifaces: map[string]*IfaceContract{}, Ghosts: map[string]*GhostDecl{}, GhostFields: map[string]string{}, Unscoped: map[string][]string{}, Globals: map[string]*GlobalDecl{}, Externs: map[string]*FuncContract{}, Sha: map[string]string{}}
 }
 
 type cline struct {
@@ -210,7 +214,17 @@ func parseExprAt(src, file string, line int) ast.Expr {
 	return e
 }
 
+// engineAbort: a fatal condition raised while a function is being verified
+// (its contract no longer fits the code); verifyFunc turns it into a failed
+// obligation instead of ending the run.
+type engineAbort struct{ msg string }
+
+var verifying bool
+
 func fatalf(f string, a ...interface{}) {
+	if verifying {
+		panic(engineAbort{fmt.Sprintf(f, a...)})
+	}
 	fmt.Fprintf(os.Stderr, "govc: "+f+"\n", a...)
 	os.Exit(3)
 }
@@ -319,12 +333,12 @@ func matchParen(s string, i int) int {
 }
 
 var topKeywords = map[string]bool{"func": true, "closure": true, "spec": true, "lemma": true, "interface": true,
-	"field": true, "chan": true, "ghost": true, "axiom": true, "global": true, "ghostfield": true, "unscoped": true, "chanlog": true, "callguard": true}
+	"field": true, "chan": true, "ghost": true, "axiom": true, "global": true, "ghostfield": true, "unscoped": true, "chanlog": true, "callguard": true, "extern": true}
 
 var clauseKeywords = map[string]bool{"requires": true, "ensures": true, "modifies": true, "safety": true, "pure": true,
 	"inline": true, "may_panic": true, "witness": true, "lemma": true, "role": true, "holds": true, "acquires": true,
 	"decreases": true, "loop": true, "invariant": true, "unfold": true, "method": true, "reads": true, "trusted": true,
-	"assumed": true, "terminates": true, "call": true, "hint": true, "anchor": true, "reveal": true, "assert": true, "after": true, "forall": true, "inst": true, "callback": true, "assumes": true, "epilogue": true}
+	"assumed": true, "terminates": true, "call": true, "hint": true, "anchor": true, "reveal": true, "assert": true, "after": true, "forall": true, "inst": true, "callback": true, "assumes": true, "epilogue": true, "set": true, "handover": true}
 
 func firstWord(s string) string {
 	s = strings.TrimSpace(s)
@@ -554,6 +568,9 @@ func (cs *Contracts) parseFuncClauses2(fc *FuncContract, loop *LoopSpec, call *C
 	case "terminates":
 		tags, _, _ := parseTagged(rest)
 		fc.Term = append(fc.Term, tags...)
+	case "handover":
+		tags, _, _ := parseTagged(rest)
+		fc.Owns = append(fc.Owns, tags...)
 	case "pure":
 		fc.Pure = true
 	case "inline":
@@ -577,6 +594,14 @@ func (cs *Contracts) parseFuncClauses2(fc *FuncContract, loop *LoopSpec, call *C
 			fatalf("%s:%d: assert is only allowed in a call section", path, l.line)
 		}
 		call.Asserts = append(call.Asserts, mk("assert"))
+	case "set":
+		if call == nil {
+			fatalf("%s:%d: set is only allowed in a call section", path, l.line)
+		}
+		k := strings.Index(rest, "=")
+		name := strings.TrimSpace(rest[:k])
+		body := strings.TrimSpace(rest[k+1:])
+		call.Set = append(call.Set, Clause{Kind: "set", Name: name, Text: body, Expr: parseExprAt(body, path, l.line), File: path, Line: l.line})
 	case "after":
 		if call == nil {
 			fatalf("%s:%d: after is only allowed in a call section", path, l.line)
@@ -615,6 +640,30 @@ func (cs *Contracts) parseBlock(b []cline, path, pkgPath string) {
 			fatalf("%s:%d: duplicate contract for %s", path, head.line, k)
 		}
 		cs.Funcs[k] = fc
+	case "extern":
+		// extern (r *bufio.Reader) ReadBytes(delim byte) (line []byte, err error)
+		// extern bufio.NewReader(rd io.Reader) (r *bufio.Reader)
+		// An assumed contract of a function outside the module (trusted base).
+		recv, name, params, results := parseSig(rest, path, head.line)
+		fc := &FuncContract{PkgPath: pkgPath, Params: params, Results: results, Recv: recv, File: path, Line: head.line, Trusted: true, Extern: true}
+		full := name
+		if recv != nil {
+			t := strings.TrimSpace(recv.Type)
+			ptr := strings.HasPrefix(t, "*")
+			t = strings.TrimPrefix(t, "*")
+			dot := strings.LastIndex(t, ".")
+			if dot < 0 {
+				fatalf("%s:%d: extern receiver must be package-qualified", path, head.line)
+			}
+			if ptr {
+				full = t[:dot] + ".(*" + t[dot+1:] + ")." + name
+			} else {
+				full = t[:dot] + ".(" + t[dot+1:] + ")." + name
+			}
+		}
+		fc.Key = "extern " + full
+		cs.parseFuncClauses(fc, b[1:], path)
+		cs.Externs[full] = fc
 	case "closure":
 		// closure (*T).M#Label (params) (results)
 		h := strings.Index(rest, "#")
@@ -766,7 +815,12 @@ func (cs *Contracts) parseBlock(b []cline, path, pkgPath string) {
 			}
 		}
 		flush()
-		cs.Ifaces[pkgPath+"::"+ic.Name] = ic
+		if dot := strings.LastIndex(ic.Name, "."); dot >= 0 {
+			// an interface declared outside the module (net.Conn): keyed by its own package
+			cs.Ifaces[ic.Name[:dot]+"::"+ic.Name[dot+1:]] = ic
+		} else {
+			cs.Ifaces[pkgPath+"::"+ic.Name] = ic
+		}
 	case "field":
 		// field T.f: mode(args)
 		text := rest
